@@ -60,6 +60,9 @@ def size_ok(cls, size, thin=False):
         return all(L >= 1 for L in size)
     if thin and cls in OPEN_LATTICES:
         return all(L >= 1 for L in size) and max(size) >= 2
+    if thin and cls == 'RhombicPlanarCode':
+        # a one-layer slab is a valid member (a side of 1 in x or y is not)
+        return size[0] >= 2 and size[1] >= 2 and size[2] >= 1
     if any(L < 2 for L in size):
         return False
     if cls in ('RhombicToricCode', 'Color3DCode'):
@@ -84,7 +87,7 @@ def sizes(cls, max_L, max_L_2d=None, max_color=None, thin=False):
         top = max_L_2d if max_L_2d is not None else max_L
     else:
         top = max_L
-    lo = 1 if (cls in COLOR_2D or (thin and cls in OPEN_LATTICES)) else 2
+    lo = 1 if (cls in COLOR_2D or (thin and cls in OPEN_LATTICES + ('RhombicPlanarCode',))) else 2
     out = []
     for s in itertools.product(range(lo, top + 1), repeat=dim):
         if size_ok(cls, s, thin=thin):
